@@ -126,7 +126,8 @@ def run_c01(ctx):
             for d in batch[:3]:
                 ctx.sample({'op': 'pv', 'cfg': cfg, 'input_hex': hx(d)})
         # entry points: the same verdict from &str and reader input on a sample
-        sample = [d for d in itertools.islice(space_inputs(ctx), 0, 3000000, 23)]
+        sample = [d for d in itertools.islice(space_inputs(ctx), 0, 3000000, 23)] + gen.escape_docs()
+        ctx.violations += judge_c01(ctx, cfg, gen.escape_docs())
         ctx.violations += judge_sources(ctx, cfg, sample, ops=('pv',), srcs=['s', 'b', 'r1', 'rx5'], what_prefix='c01-')
         # depth clause: 127 levels accepted, 128 rejected, for every bracket mix
         ctx.violations += judge_depth(ctx, cfg)
@@ -236,6 +237,10 @@ def value_docs(ctx, n):
         yield x
     for s in [b'-0', b'-0.0', b'0e0', b'[-0]', b'{"a":1,"a":2}', b'{"b":1,"a":2,"b":3}', b'{"a":{"a":1,"a":[]},"":0}']:
         yield s
+    for s in gen.escape_docs():
+        yield s
+    for s in gen.big_dup_objects(rng):
+        yield s
 
 def run_c02(ctx):
     ctx.rule = ('generated valid documents (all value kinds, whitespace placements, escape spellings, duplicate keys, number spellings, '
@@ -293,7 +298,7 @@ def run_c11(ctx):
                 'plus direct checks: position within input, Eof at end of input; non-trivial = error beyond column 2 or on a later line')
     for cfg in ctx.cfgs:
         n = 600 if ctx.tier == 'quick' else 6000
-        for batch in chunks(itertools.chain(gen.enum_tokens(4), multiline_mutants(ctx, n), gen.depth_docs(ctx.rng), gen.number_literals(ctx.rng, 300)), 400000):
+        for batch in chunks(itertools.chain(gen.enum_tokens(4), multiline_mutants(ctx, n), gen.depth_docs(ctx.rng), gen.escape_docs(), gen.number_literals(ctx.rng, 300)), 400000):
             note_dist(ctx, batch)
             ctx.violations += judge_c11(ctx, cfg, batch)
             for d in batch[:3]:
@@ -415,7 +420,7 @@ def run_c09(ctx):
             ctx.violations += judge_c09(ctx, cfg, batch)
             for d in batch[:3]:
                 ctx.sample({'ops': 'pv/pi/pr x sources', 'cfg': cfg, 'input_hex': hx(d)})
-        ctx.violations += judge_c09(ctx, cfg, gen.depth_docs(ctx.rng) + gen.number_literals(ctx.rng, 300))
+        ctx.violations += judge_c09(ctx, cfg, gen.depth_docs(ctx.rng) + gen.escape_docs() + gen.number_literals(ctx.rng, 300))
         streams = list(stream_inputs(ctx, 4000 if ctx.tier == 'quick' else 40000))
         ctx.violations += judge_stream_sources(ctx, cfg, streams)
         ctx.violations += judge_pos(ctx, cfg, 20000 if ctx.tier == 'quick' else 300000)
@@ -527,11 +532,15 @@ def rand_ws_b(rng):
 def judge_c12(ctx, cfg, inputs, aux=None):
     L = ctx.letters(cfg)
     v = []
+    # construction routes of the iterator: Deserializer::new(read).into_iter() (plain), StreamDeserializer::new(read) (+n), the reader passed
+    # as `&mut R` through the forwarding impl (+m) — all must give the history of the model; the extra routes run on every third input
+    routes = [('b', 1), ('r1', 1), ('b+m', 3), ('r1+m', 3), ('r1+n', 3), ('r3+m+n', 3), ('s+m', 3)]
     for tgt in ('v', 'i'):
-        for src in ('b', 'r1'):
-            lines = ['st %s %s %s 7 %s' % (L, tgt, src, hx(d)) for d in inputs]
+        for src, step in routes:
+            ins = [d for d in inputs[::step] if not src.startswith('s') or gen.is_utf8(d)]
+            lines = ['st %s %s %s 7 %s' % (L, tgt, src, hx(d)) for d in ins]
             io, mo = ctx.both(cfg, lines)
-            for d, a, m in zip(inputs, io, mo):
+            for d, a, m in zip(ins, io, mo):
                 if a == 'PANIC' or a.startswith('CRASH'):
                     v.append({'what': 'stream-panic', 'cfg': cfg, 'input': hx(d), 'expected': m, 'actual': a})
                     continue
@@ -784,6 +793,7 @@ def run_c14(ctx):
         surr = [b'"' + p + e1 + e2 + q + b'"' for p in (b'', b'A') for q in (b'', b'z') for e1 in (b'\\ud7ff', b'\\ud800', b'\\udbff', b'\\udc00', b'\\udc01', b'\\udfff', b'\\ue000', b'')
                 for e2 in (b'\\ud800', b'\\udbff', b'\\udc00', b'\\udfff', b'\\u0041', b'\\n', b'x', b'')]
         surr += [b'{' + s_ + b':0}' for s_ in surr[:200]]
+        surr += gen.escape_docs()
         ctx.violations += scan(surr)
         for batch in chunks(itertools.chain(gen.enum_tokens(4 if ctx.tier == 'thorough' else 3),
                                             (bytes(rng.randrange(256) for _ in range(rng.randrange(1, 40))) for _ in range(50000)),
@@ -819,11 +829,48 @@ def run_c14(ctx):
         ctx.violations += judge_typed_budget(ctx, cfg)
         if cfg == ctx.cfgs[-1]:
             typed_part(ctx, 'run_c14_typed')
-        if cfg == 'ud':
-            d = b'[' * 3000 + b']' * 3000
-            outs = ctx.impl(cfg, ['pv %s b %s' % (ctx.letters(cfg, True), hx(d))])
-            if not outs[0].startswith('ok'):
-                ctx.violations.append({'what': 'unbounded-depth-rejected', 'cfg': cfg, 'input': 'len=%d' % len(d), 'expected': 'ok with the limit disabled', 'actual': outs[0], 'shrinkable': False})
+    ctx.violations += judge_unbounded(ctx)
+
+def judge_unbounded(ctx):
+    """unbounded_depth build (side configuration in the quick tier): with disable_recursion_limit() deeper documents parse — through the
+    deserializer directly AND through a stream iterator made from it (into_iter() must keep the flag) for every source; with the limit left
+    enabled the same build still rejects the 128th level.  Model and implementation must agree."""
+    cfg = 'ud'
+    if cfg not in list(ctx.cfgs) + list(getattr(ctx, 'side_cfgs', [])):
+        return []
+    Lu, Ll = ctx.letters(cfg, True), ctx.letters(cfg)
+    v = []
+    docs = []
+    for depth in (127, 128, 129, 300, 3000):
+        for pat in ('[', '{"a":', '[{"k":'):
+            unit_close = {'[': b']', '{"a":': b'}', '[{"k":': b'}]'}[pat]
+            inner = b'1' if pat != '[' else b''
+            n = depth if pat != '[{"k":' else depth // 2
+            docs.append((depth, pat.encode() * n + inner + unit_close * n))
+    lines, meta = [], []
+    for depth, d in docs:
+        for L in (Lu, Ll):
+            for src in ('b', 'r1', 's'):
+                lines.append('pv %s %s %s' % (L, src, hx(d))); meta.append((depth, d, L, 'pv ' + src))
+            for src in ('b', 'r1', 's', 'r3+m'):
+                lines.append('st %s v %s 3 %s' % (L, src, hx(d + b' ' + d))); meta.append((depth, d, L, 'st ' + src))
+    io, mo = ctx.both(cfg, lines)
+    for (depth, d, L, how), a, m in zip(meta, io, mo):
+        short = 'depth=%d len=%d head=%s' % (depth, len(d), hx(d[:12]))
+        if a == 'SKIP':
+            continue
+        am = cut_at_error(a) if how.startswith('st') else a
+        mm = cut_at_error(m) if how.startswith('st') else m
+        # values this deep are not printed back in full by either side beyond equality of the lines
+        if am != mm:
+            v.append({'what': 'unbounded-depth-model-mismatch', 'cfg': cfg, 'input': short, 'how': how, 'letters': L, 'expected': 'model: ' + m[:160], 'actual': a[:160], 'shrinkable': False})
+        elif L == Lu and not (a.startswith('ok') or a.startswith('Va') or a.startswith('Vo')):
+            v.append({'what': 'unbounded-depth-rejected', 'cfg': cfg, 'input': short, 'how': how, 'expected': 'accepted with the limit disabled', 'actual': a[:160], 'shrinkable': False})
+        elif L == Ll and depth >= 128 and 'RecLimit' not in a:
+            v.append({'what': 'depth-limit-not-enforced', 'cfg': cfg, 'input': short, 'how': how, 'expected': 'recursion limit exceeded (limit not disabled)', 'actual': a[:160], 'shrinkable': False})
+        elif not ctx.quiet:
+            ctx.distinct_nontrivial += 1
+    return v
 
 def judge_c14(ctx, cfg, inputs, aux=None):
     L = ctx.letters(cfg)
@@ -898,5 +945,5 @@ register('C10', cfgs={'quick': ['def', 'raw'], 'thorough': ['def', 'raw', 'ap']}
 register('C11', cfgs={'quick': ['def'], 'thorough': ['def']}, run=run_c11, judge=judge_c11, extended=run_c11, trusted_base=PARSER_TB)
 register('C12', cfgs={'quick': ['def'], 'thorough': ['def']}, run=run_c12, judge=judge_c12, extended=run_c12, trusted_base=PARSER_TB)
 register('C13', cfgs={'quick': ['def'], 'thorough': ['def']}, run=run_c13, judge=None, extended=run_c13, trusted_base=PARSER_TB)
-register('C14', cfgs={'quick': ['def'], 'thorough': ['def', 'ud']}, run=run_c14, judge=judge_c14, extended=run_c14, trusted_base=PARSER_TB)
+register('C14', cfgs={'quick': ['def'], 'thorough': ['def', 'ud']}, side_cfgs=['ud'], run=run_c14, judge=judge_c14, extended=run_c14, trusted_base=PARSER_TB)
 register('C19', cfgs={'quick': ['raw'], 'thorough': ['raw', 'rawpofr']}, run=run_c19, judge=judge_c19, extended=run_c19, trusted_base=PARSER_TB)
